@@ -168,7 +168,7 @@ pub fn strategy() -> BoxedStrategy<Case> {
 
 pub fn run(ctx: &Ctx, known: &[Known]) -> Report {
     let cases = match ctx.tier {
-        Tier::Quick => 12_000,
+        Tier::Quick => 20_000,
         Tier::Thorough => 400_000,
     };
     let stats = run_generated(ctx, "C12", "gen", &strategy, &check, cases, known);
